@@ -23,7 +23,8 @@ func Harness_C01_roundtrip() {
 	var sent []c01Sent
 	for i := 0; i < k; i++ {
 		t := packet.Type(verif_Byte())
-		verif_Assume(t&packet.Encrypted == 0)
+		// the writer frames packets carrying the Encrypted flag like any other; this reader does
+		// not decrypt (it reports an error for them) but must still consume exactly their bytes
 		comp := verif_Bool()
 		// the compression flag is set by the writer from useCompression; a caller-set
 		// flag without compression is not a packet the writer is documented to accept
@@ -49,6 +50,12 @@ func Harness_C01_roundtrip() {
 	total := 0
 	for _, s := range sent {
 		got, n, err := rp.ReadPacket()
+		if s.typ.IsEncrypted() && !s.typ.IsHeartbeat() {
+			verif_Assert("C01.read.encrypted_rejected", err != nil)
+			total += n
+			verif_Cover("C01.rt.encrypted_skipped")
+			continue
+		}
 		verif_Assert("C01.read.ok", err == nil && got != nil)
 		total += n
 		verif_Assert("C01.read.type", got.PacketType&0x3F == s.typ&0x3F)
